@@ -1,10 +1,12 @@
 package main
 
 import (
+	"bytes"
 	"encoding/base64"
 	"encoding/json"
 	"fmt"
 	"io"
+	"mime/multipart"
 	"net/http"
 	"net/http/httptest"
 	"net/url"
@@ -138,7 +140,15 @@ func gatesOverride(s *Summary, c *gateCase) {
 	target := "/o"
 	hdr := http.Header{}
 	if c.Form != "" {
-		if c.M == "POST" || c.M == "PUT" || c.M == "PATCH" {
+		if (c.M == "POST" || c.M == "PUT" || c.M == "PATCH") && len(c.Form)%2 == 1 {
+			// the form field travels in a multipart body
+			var buf bytes.Buffer
+			mw := multipart.NewWriter(&buf)
+			mw.WriteField("_method", c.Form)
+			mw.Close()
+			body = buf.String()
+			hdr.Set("Content-Type", mw.FormDataContentType())
+		} else if c.M == "POST" || c.M == "PUT" || c.M == "PATCH" {
 			body = "_method=" + url.QueryEscape(c.Form)
 			hdr.Set("Content-Type", "application/x-www-form-urlencoded")
 		} else {
@@ -179,8 +189,17 @@ func gatesWrap(s *Summary, c *gateCase) {
 	}
 	r := rux.New()
 	// wrapped generic handlers take part in the chain like native middleware
-	generic := http.HandlerFunc(func(w http.ResponseWriter, r *http.Request) { log = append(log, "in:generic") })
-	r.Use(func(cx *rux.Context) { log = append(log, "in:native1") })
+	generic := http.HandlerFunc(func(w http.ResponseWriter, r *http.Request) {
+		log = append(log, "in:generic")
+		w.Write([]byte("g")) // commits the header: the status recorded by the native middleware before must be sent
+	})
+	var seenStatus, seenLen int
+	r.Use(func(cx *rux.Context) {
+		log = append(log, "in:native1")
+		cx.SetStatus(201)
+		cx.Next()
+		seenStatus, seenLen = cx.StatusCode(), cx.Length()
+	})
 	r.GET("/w", func(cx *rux.Context) { log = append(log, "in:router") }, rux.WrapHTTPHandler(generic),
 		func(cx *rux.Context) { log = append(log, "in:native2") })
 	ws := []func(http.Handler) http.Handler{}
@@ -193,8 +212,15 @@ func gatesWrap(s *Summary, c *gateCase) {
 	other.WrapHTTPHandlers(ws...).ServeHTTP(httptest.NewRecorder(), httptest.NewRequest("GET", "http://example.com/w", nil))
 	log = log[:0]
 	h := r.WrapHTTPHandlers(ws...)
-	h.ServeHTTP(httptest.NewRecorder(), httptest.NewRequest("GET", "http://example.com/w", nil))
+	rec := httptest.NewRecorder()
+	h.ServeHTTP(rec, httptest.NewRequest("GET", "http://example.com/w", nil))
 	s.Compared++
+	if rec.Code != 201 || seenStatus != 201 || seenLen != 1 {
+		s.mismatch(map[string]any{"kind": "gates", "aspect": "wrap", "what": fmt.Sprintf(
+			"a generic handler wrapped with WrapHTTPHandler after a native middleware that set status 201: response %d, the middleware sees StatusCode()=%d Length()=%d after Next (expected 201, 201, 1)",
+			rec.Code, seenStatus, seenLen)}, c)
+		return
+	}
 	want := []string{}
 	for _, n := range c.Order {
 		if n == "router" {
